@@ -31,6 +31,27 @@ def classify(op, w_before_shape):
     return None
 
 
+def cycle_attempt(op, before):
+    """does the call name, as an argument, an ancestor of the element it is to be placed next to / into? (putting an element beneath
+    itself is outside the property's quantifier: the library detects it late, if at all)"""
+    f = op.split(":")
+    if f[0] not in ("ib", "ia", "rw", "in", "ap", "el", "et", "wr"):
+        return False
+    parent = {}
+    for l, kids in before.items():
+        if kids and kids != "-":
+            for k in heapsim.split_labels(kids):
+                parent[k] = l
+    target = f[1]
+    anc = set()
+    x = target if f[0] in ("in", "ap", "el", "et") else parent.get(target)
+    while x is not None and x not in anc:
+        anc.add(x)
+        x = parent.get(x)
+    args = f[-1].split(",") if f[-1] != "-" else []
+    return any(a in anc for a in args)
+
+
 def run_history(ctx, rng, steps, stream, ops_fixed=None, kinds_fixed=None, parsed=None):
     if kinds_fixed is None:
         parsed = rng.random() < 0.4
@@ -61,6 +82,16 @@ def run_history(ctx, rng, steps, stream, ops_fixed=None, kinds_fixed=None, parse
         outcomes.append(st)
         if st != "ok":
             shapes.append(None)
+            if st == "err:ValueError" and not cycle_attempt(op, before):
+                # a refused call ("can't insert an element before itself", "cannot replace an element that is not part of a tree", ...)
+                # changes the forest in no way: not even the arguments that stood before the offending one have moved
+                after = shape_of_world(w)
+                diff = next((l for l in set(before) | set(after) if before.get(l) != after.get(l)), None)
+                ctx.count("refused-calls-checked")
+                if diff is not None:
+                    ctx.violation(f"{op}: the call raised ValueError but changed the forest: children of {diff} were {before.get(diff)}, are {after.get(diff)}",
+                                  case={"kinds": kinds, "ops": ops, "parsed": bool(parsed), "before": before, "twin": getattr(w, "twin_choices", None)},
+                                  expected=before.get(diff), observed=after.get(diff), stream=stream)
             break
         spec.apply(op)
         got = shape_of_world(w)
